@@ -10,6 +10,7 @@ import (
 	"runtime/debug"
 	"sort"
 	"time"
+	_ "time/tzdata"
 
 	"verif/harness/gen"
 	"verif/harness/wk"
